@@ -289,3 +289,42 @@ impl Budget {
         self.start.elapsed().as_secs_f64() > self.limit_s
     }
 }
+
+/// Per-thread accumulator merged into the report afterwards (checks that fan out over threads).
+#[derive(Default)]
+pub struct Acc {
+    pub evaluations: u64,
+    pub transitions: u64,
+    pub nontrivial: u64,
+    pub outcomes: BTreeSet<String>,
+    pub violations: Vec<(String, String, Value)>,
+    pub per_sig: BTreeMap<String, u64>,
+}
+
+impl Acc {
+    pub fn outcome(&mut self, o: &str) {
+        if !self.outcomes.contains(o) {
+            self.outcomes.insert(o.to_string());
+        }
+    }
+    pub fn violation(&mut self, sig: &str, what: &str, case: Value) {
+        let n = self.per_sig.entry(sig.to_string()).or_insert(0);
+        *n += 1;
+        if *n <= 3 {
+            self.violations.push((sig.to_string(), what.to_string(), case));
+        } else {
+            self.violations.push((sig.to_string(), String::new(), Value::Null));
+        }
+    }
+    pub fn merge_into(self, rep: &mut Report) {
+        rep.evaluations += self.evaluations;
+        rep.transitions += self.transitions;
+        rep.nontrivial += self.nontrivial;
+        for o in self.outcomes {
+            rep.outcome(&o);
+        }
+        for (s, w, c) in self.violations {
+            rep.violation(&s, &w, c);
+        }
+    }
+}
